@@ -42,7 +42,7 @@ class DimacsCmdHelper(FormulaHelper):
         parser.add_argument('input',
                             nargs='?',
                             help=argparse.SUPPRESS,
-                            type=argparse.FileType('r'),
+                            type=argparse.FileType('r', encoding='utf-8'),
                             default='-')
 
     @staticmethod
